@@ -12,7 +12,7 @@ CHECKS = {
    note="Trusts Go runtime checks; termination restated as bounded progress; recursion observed through the 256 KiB ceiling on inputs up to 256 KiB (quick) / 4 MiB (thorough).", ref="6 C02"),
 
  "C03": dict(technique="runtime monitoring: constant-true oracle over an enumerated and sampled attack grammar",
-   text="Exploration. Every member of a fixed attack grammar (11 quoting prefixes x closers x 12 separators x 70 payload templates x case masks x 12 tails, minus the productions dropped by a one-time calibration) is passed to IsSQLi; exhaustive with one separator per string and four case masks, sampled with independent separators and random masks beyond. Any false verdict is a violation with the per-context fingerprints as witness.",
+   text="Exploration. Every member of a fixed attack grammar (11 quoting prefixes x closers x 14 separators (incl. NUL) x 70 payload templates x case masks x 12 tails, minus the productions dropped by a one-time calibration) is passed to IsSQLi; exhaustive with one separator per string and four case masks, sampled with independent separators and random masks beyond. Any false verdict is a violation with the per-context fingerprints as witness.",
    note="The grammar is fixed data calibrated once on the repaired tree (grammar/g03_dropped.txt lists the drops); detection outside the grammar is not claimed.", ref="6 C03"),
  "C04": dict(technique="runtime monitoring: constant-true oracle over a vector grammar instantiated from the live tables",
    text="Exploration. Every black tag, every on* event, every URL attribute x scheme, style/filter, xmlns/xlink/datasrc, attributename indirection and the markup vectors are rendered behind every breakout prefix with an axis-wise sweep of separators, quotings, case masks, tag ends and NUL positions, then random products incl. per-byte character-reference encodings, leading junk and NUL/LF inside schemes; IsXSS must be true.",
